@@ -25,10 +25,12 @@ func init() {
 	register(&propDef{
 		ID: "C14", Level: "exploration",
 		Families: []family{
-			{Name: "l2-rendering", Fn: scnC14, Weight: 1},
+			{Name: "l2-rendering", Fn: scnC14(2), Weight: 4},
+			{Name: "l3-rendering-under-backpressure", Fn: scnC14(3), Weight: 1},
 		},
 		Rule: "one to three correlated sessions (login bound before the first record or after k records) with up to 40 kernel events each drawn from all record groups of the kernel-audit world model " +
-			"(simple and compound events, success=yes/no, res=success/failed/1/0, with/without EXECVE, EOE- and PROCTITLE-terminated) pushed through the real Read loop (parser, reassembler, tickers, tracker); " +
+			"(simple and compound events, success=yes/no, res=success/failed/1/0, with/without EXECVE, EOE- and PROCTITLE-terminated) (incl. SELinux denials led by an AVC record) pushed through the real Read loop (parser, reassembler, tickers, tracker), and in a fifth of the runs through the assembled daemon on simulated pipes " +
+			"with a hand-over buffer of 1-64 records and an output write that stalls for 0.5-3 simulated seconds (back-pressure up to the audit pipe); " +
 			"each UserAction is matched to its kernel event by timestamp and compared with generator ground truth (outcome, session, timestamp) and with aucoalesce run on exactly those records (action/how/object/process_args); " +
 			"identity immutability over the whole session; non-trivial = at least 3 UserActions including a failed one or one with arguments; distinct = distinct (stream hash, schedule hash)",
 		Quick: 6000, Thorough: 150000,
@@ -39,8 +41,8 @@ func init() {
 			{Name: "boundary-interleavings", Fn: scnC15Boundary, Weight: 2},
 			{Name: "read-faults", Fn: scnC15Faults, Weight: 3, Group: 16},
 		},
-		Rule: "boundary: records of 2-3 kernel events (<=4 records each) interleaved in a taped merge order that keeps per-event order, EOE- and PROCTITLE-terminated groups, empty lines, fed to the real parseAuditLogs + reassembler + reassembler callback around a counting correlator; " +
-			"read-faults: audit streams for bound sessions through the real Read with one fault enumerated within each group of runs: malformed line at position p, write error at the k-th event, invalid login {pid 0, nil source, empty credential} at a taped point, " +
+		Rule: "boundary: records of 2-3 kernel events (<=4 records each) interleaved in a taped merge order that keeps per-event order, EOE- and PROCTITLE-terminated groups and groups with neither (complete only by the reassembler's time-out), empty lines, arriving after a taped quiet period of 0-3 simulated seconds, fed to the real parseAuditLogs + reassembler + reassembler callback around a counting correlator; " +
+			"read-faults: audit streams for bound sessions through the real Read with one fault enumerated within each group of runs: malformed line at position p, write error at the k-th event, invalid login {pid 0, nil source, empty credential} at a taped point (for a PID nothing is known about, or for a session that is already waiting for its login), " +
 			"unparsable PID in a LOGIN record, two failures in one run, a single transient write failure at the k-th event of a hold-queue flush; non-trivial = records of different events were interleaved (boundary) or the fault fired before the end of the stream (faults); distinct = distinct (stream hash, fault, position, schedule hash)",
 		Quick: 8000, Thorough: 200000,
 	})
@@ -48,7 +50,11 @@ func init() {
 
 // ---- C14 ----
 
-func scnC14(rc *RunCtx) {
+func scnC14(level int) scenarioFn {
+	return func(rc *RunCtx) { scnC14At(rc, level) }
+}
+
+func scnC14At(rc *RunCtx, level int) {
 	t := rc.Spec
 	k := NewKaudit()
 	w := &L1World{}
@@ -95,7 +101,9 @@ func scnC14(rc *RunCtx) {
 			ms += 20
 		}
 		ev := w.Sessions[si].Events[idx[si]]
-		if ev.NRec >= 4 && t.Choose(4, "split.group") == 0 {
+		// (not together with a stalled output: a stall on top of the gap exceeds the reassembler's
+		// time-out, and the group is then legitimately delivered in two parts)
+		if ev.NRec >= 4 && level == 2 && t.Choose(4, "split.group") == 0 {
 			// the records of one kernel event arrive in two bursts 0.6-1.8 s apart (records of
 			// other events may fall in between); the reassembler waits up to 2 s for the rest
 			cut := 1 + t.Choose(ev.NRec-1, "split.at")
@@ -125,18 +133,29 @@ func scnC14(rc *RunCtx) {
 		rc.Abort("world: %v", err)
 		return
 	}
-	p := newPipeline(rc, 2, h, sshdTL, auditTL)
+	p := newPipeline(rc, level, h, sshdTL, auditTL)
 	// in half of the runs the encoder edits the UserActions it receives (a consumer such as
 	// a redaction layer): shared state between emitted events and the stored login shows
-	p.PoisonActions = rc.Index%2 == 1
+	p.PoisonActions = level == 2 && rc.Index%2 == 1
+	var stallFor time.Duration
+	if level == 3 {
+		// the assembled daemon with a small hand-over buffer between the audit ingester and the
+		// audit processor, and an output that stalls once: the ingester is held up by back-pressure
+		p.Knobs["auditLogChanBufSize"] = []int{1, 2, 8, 64}[t.Choose(4, "knob.chan")]
+		p.Knobs["bufio"] = []int{4096, 64, 512}[t.Choose(3, "knob.bufio")]
+		stallFor = time.Duration(500+t.Choose(2500, "stall.ms")) * time.Millisecond
+	}
 	pol := pipelinePolicy(rc)
 	if err := p.Start(); err != nil {
 		rc.Abort("start: %v", err)
 		return
 	}
-	ok := p.Run(p.worldDone, time.Duration(ms+5000)*time.Millisecond, 100*time.Millisecond, 400000)
+	if level == 3 && p.disk != nil {
+		p.disk.StallAt, p.disk.StallFor = 1+t.Choose(8, "stall.at"), stallFor
+	}
+	ok := p.Run(p.worldDone, time.Duration(ms+5000)*time.Millisecond+2*stallFor, 100*time.Millisecond, 1000000)
 	if ok {
-		ok = p.Run(nil, rc.SimNow()+3*time.Second, 100*time.Millisecond, 400000)
+		ok = p.Run(nil, rc.SimNow()+3*time.Second+stallFor, 100*time.Millisecond, 1000000)
 	}
 	var hs []string
 	for _, s := range w.Sessions {
@@ -146,13 +165,13 @@ func scnC14(rc *RunCtx) {
 	}
 	rc.CaseKey(hashStr(hs...), fmt.Sprint(loginAfter))
 	nact, nfail, nargs := 0, 0, 0
-	rc.R.Sample = map[string]any{"sessions": n, "events_per_session": lens, "login_after_k_records": loginAfter, "policy": pol, "written": len(p.Out)}
+	rc.R.Sample = map[string]any{"level": level, "knobs": p.Knobs, "output_stall_ms": stallFor.Milliseconds(), "sessions": n, "events_per_session": lens, "login_after_k_records": loginAfter, "policy": pol, "written": len(p.Out)}
 	if !ok || !p.worldDone() {
 		rc.Abort("run did not finish: %v", rc.Sim.Live())
 		return
 	}
-	if p.ReadDone || len(p.procErrs) > 0 {
-		rc.Abort("processors stopped in a fault-free run: %v %v", p.ReadErr, p.procErrs)
+	if p.ReadDone || len(p.procErrs) > 0 || p.Returned {
+		rc.Abort("processors stopped in a fault-free run: %v %v %v", p.ReadErr, p.procErrs, p.RetErr)
 		return
 	}
 	// snapshots of the login events at the time they were written
@@ -221,6 +240,9 @@ func scnC14(rc *RunCtx) {
 		}
 	}
 	for pid, ls := range loginSnap {
+		if ls.Ptr == nil {
+			continue // read back from the output file: there is no stored object to look at
+		}
 		now, err := snapshotEvent(ls.Ptr)
 		if err != nil || now.Identity() != ls.Identity() || now.Raw != ls.Raw {
 			rc.Fail("C14", "login-mutated", "the stored login of pid %s was altered by emitting events: written as %s, now %s", pid, ls.Raw, now.Raw)
@@ -256,6 +278,7 @@ func scnC15Boundary(rc *RunCtx) {
 	k := NewKaudit()
 	ne := 2 + t.Choose(2, "nevents")
 	var evs []*KEvent
+	unterminated := 0
 	for i := 0; i < ne; i++ {
 		var e *KEvent
 		switch t.Choose(5, "kind") {
@@ -265,6 +288,11 @@ func scnC15Boundary(rc *RunCtx) {
 			e = k.AVC("55", 100+i, 1000)
 		default:
 			e = k.Exec("55", 100+i, 1000, cmds[t.Choose(len(cmds), "cmd")], t.Choose(3, "ok") != 0, t.Choose(4, "execve") != 0, t.Choose(2, "eoe") == 0)
+		}
+		if len(e.Lines) > 1 && t.Choose(4, "unterminated") == 3 {
+			// no EOE and no PROCTITLE: the group is complete only when the reassembler times it out
+			e.Unterminated()
+			unterminated++
 		}
 		evs = append(evs, e)
 	}
@@ -308,6 +336,18 @@ func scnC15Boundary(rc *RunCtx) {
 	rc.Sim.Spawn("parse", func() { res.set(auditd.SimParseAuditLogs(ctx, ch, reass)) })
 	rc.Sim.Spawn("maintain", func() { auditd.SimMaintain(ctx, reass, interval) })
 	emptyAsNewline := t.Choose(2, "emptyform") == 1
+	// the stream may be quiet for a while before these records arrive
+	quiet := []time.Duration{0, 700 * time.Millisecond, 3 * time.Second, 1300 * time.Millisecond}[t.Choose(4, "quiet.before")]
+	if quiet > 0 {
+		rc.Sim.Policy = simrt.PolicyRunToBlock
+		for el := time.Duration(0); el < quiet; el += 100 * time.Millisecond {
+			rc.Sim.RunUntil(func() bool { return res.v }, 20000)
+			time.Sleep(100 * time.Millisecond)
+		}
+	}
+	if unterminated > 0 {
+		rc.Sim.Count("reassembler_unterminated_group")
+	}
 	for _, l := range lines {
 		if l == "" && !emptyAsNewline {
 			ch <- ""
@@ -327,7 +367,7 @@ func scnC15Boundary(rc *RunCtx) {
 	}
 	rc.CaseKey(hashStr(lines...))
 	rc.R.NonTrivial = interleaved
-	rc.R.Sample = map[string]any{"kernel_events": ne, "records": len(lines), "merge_order": order, "interleaved": interleaved, "handed_to_correlator": len(au.events)}
+	rc.R.Sample = map[string]any{"kernel_events": ne, "records": len(lines), "merge_order": order, "interleaved": interleaved, "unterminated_groups": unterminated, "quiet_before_ms": quiet.Milliseconds(), "handed_to_correlator": len(au.events)}
 	if res.v {
 		rc.Fail("C15", "parser-stopped", "the audit parser stopped with %v on a well-formed stream", res.err)
 		return
@@ -443,6 +483,14 @@ func scnC15Faults(rc *RunCtx) {
 		lines = append(lines[:pos], append([]string{badLine}, lines[pos:]...)...)
 		wantEvents = -1
 	}
+	// an invalid login may also be one for a session that is already waiting for its login
+	invalidPID := pid + 1
+	if strings.HasPrefix(fault, "invalid-login") && fault != "invalid-login-pid0" && t.Choose(2, "invalid.target") == 1 {
+		invalidPID = pid + 100
+		waiting := k.Login("412", invalidPID, 1001)
+		lines = append(append([]string{}, waiting.Lines...), lines...)
+		rc.Sim.Count("login.invalid.for-waiting-session")
+	}
 	for _, l := range lines {
 		audits <- l + "\n"
 	}
@@ -461,7 +509,7 @@ func scnC15Faults(rc *RunCtx) {
 	}
 	var invalid *common.RemoteUserLogin
 	if strings.HasPrefix(fault, "invalid-login") {
-		r := MakeRUL(GenLogin(t, pid+1, 2), time.Now())
+		r := MakeRUL(GenLogin(t, invalidPID, 2), time.Now())
 		switch fault {
 		case "invalid-login-pid0":
 			r.PID = 0
